@@ -3,19 +3,34 @@
 
    An input instruction is what `_transform_circuit` reads from a stim.CircuitInstruction: name, (args, tag) as an
    opaque payload `imeta` that is only copied, whether `targets_copy()` is non-empty, and `target_groups()` with every
-   target reduced to its `.value` (the code reads nothing else; for rec[-k] the value is -k).  *)
+   target reduced to its `.value` (for rec[-k] the value is -k) and, for the variant of broadcast_targets that keeps
+   `M !q` inverted, its is_inverted_result_target flag; the code reads nothing else.  *)
 From Coq Require Import ZArith NArith List Bool String.
 Import ListNotations.
 Require Import TV.Base.PauliTableau TV.gen.Gen_encoder.
 Open Scope Z_scope.
 
-Record instr := mkI { iname : string; imeta : Z; ihas : bool; igroups : list (list Z) }.
-Inductive otarget := OQ (v : Z) | ORec (v : Z).
+Record instr := mkI { iname : string; imeta : Z; ihas : bool; igroups : list (list Z);
+                      iinv : list (list bool) (* is_inverted_result_target per target, same shape as igroups;
+                                                 missing entries mean "not inverted" *) }.
+Inductive otarget := OQ (v : Z) | ORec (v : Z) | OInv (v : Z).
 Record oinstr := mkO { oname : string; ometa : Z; otargets : list otarget }.
 
 (* ------------------------------------------------------------------ broadcast_targets / _transform_circuit *)
 Definition broadcast_targets (groups : list (list Z)) (stride : Z) (offsets : list Z) : list Z :=
   flat_map (fun g => flat_map (fun off => map (fun t => bt_index t stride off) g) offsets) groups.
+
+(* the inversion flags travel with the targets (same loop structure) *)
+Definition broadcast_flags (invs : list (list bool)) (offsets : list Z) : list bool :=
+  flat_map (fun g => flat_map (fun _ => g) offsets) invs.
+Fixpoint mark (vs : list Z) (fs : list bool) : list otarget :=
+  match vs with
+  | [] => []
+  | v :: vs' => match fs with
+                | b :: fs' => (if b && bt_keeps_inversion then OInv v else OQ v) :: mark vs' fs'
+                | [] => OQ v :: mark vs' []
+                end
+  end.
 
 Definition annot_targets (idx : Z -> Z -> Z -> Z) (groups : list (list Z)) (stride : Z) (sup : list Z) : list otarget :=
   flat_map (fun g => flat_map (fun t => map (fun off => ORec (idx t stride off)) sup) g) groups.
@@ -34,7 +49,7 @@ Definition transform_instr (stride : Z) (offsets : list Z) (exps : list (string 
   else if String.eqb (iname i) "OBSERVABLE_INCLUDE"%string && nonempty obs then
     map (fun sup => mkO (iname i) (imeta i) (annot_targets obs_index (igroups i) stride sup)) obs
   else
-    let ts := map OQ (broadcast_targets (igroups i) stride offsets) in
+    let ts := mark (broadcast_targets (igroups i) stride offsets) (broadcast_flags (iinv i) offsets) in
     map (fun g => mkO g (imeta i) ts) (gate_seq exps (iname i)).
 
 Definition transform (stride : Z) (offsets : list Z) (exps : list (string * list string))
@@ -57,13 +72,15 @@ Definition st0 : enc_state := mkSt [] [].
 Definition range (hi : Z) : list Z := map Z.of_nat (seq 0 (Z.to_nat hi)).
 
 Definition enc_instrs (e : enc_table) : list instr :=
-  map (fun ng => mkI (fst ng) 0 (nonempty (snd ng)) (snd ng)) (e_encoding e).
+  map (fun ng => mkI (fst ng) 0 (nonempty (snd ng)) (snd ng) []) (e_encoding e).
 
 Definition initialize (e : enc_table) (st : enc_state) (prog encoding : list instr) : enc_state :=
   let n := e_n e in let q := e_encq e in
-  let used := used_of (st_used st) prog in
+  (* the set handed to _transform_circuit: self.used_qubits itself, or a fresh set (variant encoding new qubits only) *)
+  let touched := used_of (if init_encodes_new_only then [] else st_used st) prog in
+  let used := if init_encodes_new_only then fold_left (fun u t => insert_u t u) touched (st_used st) else touched in
   let part1 := transform (init_prep_stride n q) (init_prep_offsets n q) [] (e_stabs e) (e_obs e) prog in
-  let part2 := transform (init_enc_stride n q) (map (init_enc_offset n q) used) [] (e_stabs e) (e_obs e) encoding in
+  let part2 := transform (init_enc_stride n q) (map (init_enc_offset n q) touched) [] (e_stabs e) (e_obs e) encoding in
   mkSt (st_circ st ++ part1 ++ part2) used.
 
 Definition trans_offsets (e : enc_table) : list Z := range (trans_offsets_hi (e_n e) (e_encq e)).
@@ -82,7 +99,7 @@ Fixpoint qubits_of (ts : list otarget) : option (list Z) :=
   match ts with
   | [] => Some []
   | OQ v :: r => match qubits_of r with Some l => Some (v :: l) | None => None end
-  | ORec _ :: _ => None
+  | _ :: _ => None
   end.
 Definition conj_oinstr (o : oinstr) (P : pauli) : option pauli :=
   match qubits_of (otargets o) with Some qs => conj_targets (oname o) qs P | None => None end.
@@ -189,8 +206,8 @@ Definition logical_gates1 : list string :=
 Definition logical_gates2 : list string := ["CX"; "CZ"]%string.
 
 (* transversal version of a one-/two-qubit logical gate on logical qubit 0 / logical qubits (0,1) *)
-Definition transversal1 (e : enc_table) (g : string) : list oinstr := transversal e [mkI g 0 true [[0]]].
-Definition transversal2 (e : enc_table) (g : string) : list oinstr := transversal e [mkI g 0 true [[0; 1]]].
+Definition transversal1 (e : enc_table) (g : string) : list oinstr := transversal e [mkI g 0 true [[0]] []].
+Definition transversal2 (e : enc_table) (g : string) : list oinstr := transversal e [mkI g 0 true [[0; 1]] []].
 
 (* ------------------------------------------------------------------ measurement record and annotations *)
 Definition is_meas (nm : string) : bool := String.eqb nm "M"%string.
@@ -203,9 +220,9 @@ Definition rec_lookup (rc : list Z) (v : Z) : option Z :=
     if i <? 0 then None else nth_error rc (Z.to_nat i)
   else None.
 Definition otarget_lookup (rc : list Z) (t : otarget) : option Z :=
-  match t with ORec v => rec_lookup rc v | OQ _ => None end.
+  match t with ORec v => rec_lookup rc v | _ => None end.
 Definition oq_values (ts : list otarget) : list Z :=
-  flat_map (fun t => match t with OQ v => [v] | ORec _ => [] end) ts.
+  flat_map (fun t => match t with OQ v => [v] | OInv v => [v] | ORec _ => [] end) ts.
 
 (* physical program: for every DETECTOR / OBSERVABLE_INCLUDE the physical qubits whose Z-measurements it adds up *)
 Fixpoint presolve (rc : list Z) (prog : list oinstr) : list (string * Z * list (option Z)) :=
@@ -277,7 +294,7 @@ Definition encode_b (e : enc_table) : bool :=
 
 (* ------------------------------------------------------------------ transversal measurement of one block *)
 Definition meas_prog : list instr :=
-  [mkI "M" 0 true [[0]]; mkI "DETECTOR" 1 true [[-1]]; mkI "OBSERVABLE_INCLUDE" 2 true [[-1]]]%string.
+  [mkI "M" 0 true [[0]] []; mkI "DETECTOR" 1 true [[-1]] []; mkI "OBSERVABLE_INCLUDE" 2 true [[-1]] []]%string.
 Definition MeasCorrect (e : enc_table) : Prop :=
   (* every rewritten DETECTOR adds up the Z-measurements on the support of one listed generator, the rewritten
      OBSERVABLE_INCLUDE those on the support of the logical Z *)
@@ -292,9 +309,9 @@ Definition pair_targets (n : Z) (pairs : list (Z * Z)) : list Z :=
   flat_map (fun ab => flat_map (fun off => [fst ab * n + off; snd ab * n + off]) (range n)) pairs.
 Inductive gate_instr : instr -> Prop :=
 | gate_1q g meta qs : In g logical_gates1 -> qs <> [] -> NoDup qs ->
-    gate_instr (mkI g meta true (map (fun q => [q]) qs))
+    gate_instr (mkI g meta true (map (fun q => [q]) qs) [])
 | gate_2q g meta pairs : In g logical_gates2 -> pairs <> [] -> NoDup (flat_map (fun ab => [fst ab; snd ab]) pairs) ->
-    gate_instr (mkI g meta true (map (fun ab => [fst ab; snd ab]) pairs)).
+    gate_instr (mkI g meta true (map (fun ab => [fst ab; snd ab]) pairs) []).
 Definition all_some (lann : list (string * Z * bool * list (option Z))) : Prop :=
   forall a, In a lann -> forall o, In o (snd a) -> o <> None.
 
@@ -321,12 +338,12 @@ Definition PhysicsPremises (e : enc_table)
   (forall g names meta qs,
      PreservesStab e (layers names 0 (block (e_n e) 0)) -> Induces1 e (layers names 0 (block (e_n e) 0)) g ->
      NoDup qs ->
-     implements (layers names meta (flat_map (block (e_n e)) qs)) [mkI g meta true (map (fun q => [q]) qs)]) /\
+     implements (layers names meta (flat_map (block (e_n e)) qs)) [mkI g meta true (map (fun q => [q]) qs) []]) /\
   (forall g names meta pairs,
      PreservesStab2 e (layers names 0 (pair_targets (e_n e) [(0, 1)])) ->
      Induces2 e (layers names 0 (pair_targets (e_n e) [(0, 1)])) g ->
      NoDup (flat_map (fun ab => [fst ab; snd ab]) pairs) ->
-     implements (layers names meta (pair_targets (e_n e) pairs)) [mkI g meta true (map (fun ab => [fst ab; snd ab]) pairs)]) /\
+     implements (layers names meta (pair_targets (e_n e) pairs)) [mkI g meta true (map (fun ab => [fst ab; snd ab]) pairs) []]) /\
   (* measuring code states transversally: stabiliser parities vanish, the Zbar parity is the logical outcome *)
   (forall ops gs lann, EncodeCorrect e -> prepares -> implements ops gs -> all_some lann ->
      agree ops (flat_map (expand_annot e) lann) gs lann).
